@@ -1,6 +1,7 @@
 package props
 
 import (
+	"go/types"
 	"fmt"
 	"sort"
 	"strings"
@@ -328,6 +329,66 @@ func internTables(c *an.Ctx, R string, withRuleFields bool) {
 	if !withRuleFields {
 		return
 	}
+	// the two tables are inverses of each other: the name recorded for a new id is the name it is looked up by,
+	// and that name is built from the parent's recorded name and the transformation added
+	if tid := c.Fn(R, "internal/corazawaf.transformationID"); tid != nil {
+		var appended, keyed, idStored ssa.Value
+		an.Instrs(tid, func(in ssa.Instruction) {
+			if an.IsBuiltinCall(in, "append") {
+				cc := an.CallOf(in)
+				if strings.Contains(an.Expr(cc.Args[0]), "transformationIDToName") && len(cc.Args) == 2 {
+					// variadic packaging: the single appended element
+					for d := range an.Deps(cc.Args[1]) {
+						if _, isA := d.(*ssa.Alloc); isA {
+							continue
+						}
+						if b, ok := d.Type().Underlying().(*types.Basic); ok && b.Kind() == types.String {
+							if _, isC := d.(*ssa.Const); !isC && appended == nil {
+								appended = d
+							}
+						}
+					}
+					// prefer the direct element when the packaging stores exactly one value
+					if sl, ok := cc.Args[1].(*ssa.Slice); ok {
+						if a, ok := sl.X.(*ssa.Alloc); ok {
+							for _, r := range *a.Referrers() {
+								if ia, ok := r.(*ssa.IndexAddr); ok {
+									for _, r2 := range *ia.Referrers() {
+										if st, ok := r2.(*ssa.Store); ok {
+											appended = st.Val
+										}
+									}
+								}
+							}
+						}
+					}
+				}
+			}
+			if mu, ok := in.(*ssa.MapUpdate); ok && strings.Contains(an.Expr(mu.Map), "transformationNameToID") {
+				keyed, idStored = mu.Key, mu.Value
+			}
+		})
+		if appended == nil || keyed == nil {
+			c.Unknown(R, "transformationID: tables updated together", tid.Pos(), "append to transformationIDToName / update of transformationNameToID not found")
+		} else {
+			render := func(v ssa.Value) string { return tempName.ReplaceAllString(an.Expr(v), "") }
+			c.Check(appended == keyed || render(appended) == render(keyed), R, "transformationID: the name recorded for a new id is the name it is looked up by", tid.Pos(), render(keyed),
+				"transformationIDToName receives "+render(appended)+" while transformationNameToID is keyed by "+render(keyed)+": the parent name read back for the next step no longer identifies the whole list, so different transformation lists get the same prefix id and share cache entries")
+			kd := an.Deps(keyed)
+			usesParent, usesNew := false, false
+			for d := range kd {
+				e := an.Expr(d)
+				if strings.Contains(e, "transformationIDToName[") {
+					usesParent = true
+				}
+				if p, ok := d.(*ssa.Parameter); ok && isStringType(p.Type()) {
+					usesNew = true
+				}
+			}
+			c.Check(usesParent && usesNew, R, "transformationID: the looked-up name combines the parent list's name and the new transformation", tid.Pos(), render(keyed), "the interning key "+render(keyed)+" is not built from both the recorded name of the current id and the transformation being added")
+			c.Check(strings.Contains(render(idStored), "len(") && strings.Contains(render(idStored), "transformationIDToName"), R, "transformationID: a new id is the next index of the name table", tid.Pos(), render(idStored), "the id stored for a new name is "+render(idStored)+", not the index the name is appended at")
+		}
+	}
 	// the three per-rule fields move together
 	for _, fname := range []string{"internal/corazawaf.(*Rule).AddTransformation", "internal/corazawaf.(*Rule).ClearTransformations"} {
 		fn := c.Fn(R, fname)
@@ -372,4 +433,9 @@ func internTables(c *an.Ctx, R string, withRuleFields bool) {
 			}
 		}
 	}
+}
+
+func isStringType(t types.Type) bool {
+	b, ok := t.Underlying().(*types.Basic)
+	return ok && b.Kind() == types.String
 }
